@@ -454,6 +454,17 @@ def _copy(it, fr, a, k):
 BUILTINS["copy.copy"] = BUILTINS["copy"]
 
 
+@builtin("vars")
+def _vars(it, fr, a, k):
+    v = a[0]
+    if isinstance(v, ClassInfo):
+        names = list(v.methods) + [n for n in v.class_attrs if n not in v.methods] + [n for n in v.class_attr_vals if n not in v.methods and n not in v.class_attrs]
+        return ops.make_dict([(n, it._getattr(v, n)) for n in names if "@" not in n])
+    if isinstance(v, Obj):
+        return ops.make_dict(list(v.fields.items()))
+    raise Unsupported(f"vars({v!r})")
+
+
 @builtin("object")
 def _object(it, fr, a, k):
     return it.alloc(it.ext("object"))
